@@ -856,6 +856,14 @@ fn c13(c: &mut Ctx) {
 fn c14(c: &mut Ctx) {
     let n = c.vol(300, 15.0);
     chains(c, n, Flavor::Repetition);
+    // one position occurring six to nine times, popped back across the thresholds, partly replayed
+    for _ in 0..(n / 4).max(20) {
+        let p = start_pos(&mut c.rng, &mut c.pool);
+        c.pos(&p);
+        let s = chaingen::gen_deep_repeat(&mut c.rng, &p);
+        c.st.chain(&s.steps, s.final_len, &s.obs);
+        c.case("chain", &s.line);
+    }
 }
 
 fn ray_mask(sq: usize, diag: bool) -> u64 {
@@ -1062,6 +1070,56 @@ fn c19(c: &mut Ctx) {
         }
     }
     c.st.add("max_semilegal_moves", maxm as u64);
+    // square arithmetic behind the move readers: every edge-rank pawn move / capture / promotion spelling (SAN and UCI),
+    // on and off the ranks where it makes sense, read in a few positions of both colours — a source or victim square
+    // computed from such a text must stay on the board (or the text be refused), never trap
+    let mut readers: Vec<posgen::Pos> = Vec::new();
+    for fen in [
+        "rnbqkbnr/pppppppp/8/8/8/8/PPPPPPPP/RNBQKBNR w KQkq - 0 1",
+        "rnbqkbnr/pppppppp/8/8/4P3/8/PPPP1PPP/RNBQKBNR b KQkq e3 0 1",
+        "r3k2r/1P4P1/8/3pP3/3Pp3/8/1p4p1/R3K2R w KQkq d6 0 1",
+        "r3k2r/1P4P1/8/3pP3/3Pp3/8/1p4p1/R3K2R b KQkq d3 0 1",
+    ] {
+        if let Ok(b) = owlchess::Board::from_fen(fen) {
+            readers.push(posgen::Pos { sent: *b.raw(), board: b, fam: "C19-readers" });
+        }
+    }
+    let files = ['a', 'b', 'c', 'd', 'e', 'f', 'g', 'h'];
+    for p in &readers {
+        c.pos(p);
+        let raw = p.raw_text();
+        let mut texts: Vec<String> = Vec::new();
+        for rank in ['1', '2', '7', '8'] {
+            for promo in ["", "=Q", "=N", "R", "=K"] {
+                for (i, f) in files.iter().enumerate() {
+                    texts.push(format!("{}{}{}", f, rank, promo));
+                    for j in [i.wrapping_sub(1), i + 1] {
+                        if j < 8 {
+                            texts.push(format!("{}x{}{}{}", f, files[j], rank, promo));
+                        }
+                    }
+                }
+            }
+        }
+        for (i, f) in files.iter().enumerate() {
+            for j in [i.wrapping_sub(1), i + 1] {
+                if j < 8 {
+                    for promo in ["", "=Q", "N"] {
+                        texts.push(format!("{}{}{}", f, files[j], promo));
+                    }
+                    for (r1, r2) in [('2', '1'), ('7', '8'), ('1', '2'), ('8', '7'), ('1', '8'), ('8', '1')] {
+                        for promo in ["", "q", "n"] {
+                            texts.push(format!("{}{}{}{}{}", f, r1, files[j], r2, promo));
+                        }
+                    }
+                }
+            }
+        }
+        for t in &texts {
+            c.str_case("saninto", &format!("saninto {} ", raw), t, "");
+            c.str_case("uciinto", &format!("uciinto {} ", raw), t, " legal");
+        }
+    }
     let m = c.vol(20000, 50.0);
     for _ in 0..m {
         let sq = c.rng.usize(64);
